@@ -462,12 +462,101 @@ func c13Case(c *fw.Case, perturb bool) {
 	c.Sample(2, map[string]any{"goroutines": G, "ops_per_goroutine": nops, "op_kinds": len(kinds), "perturbed": perturb, "all_results_equal_sequential": true})
 }
 
+// c13Storm: one shared facility under the heaviest contention the machine gives — 64 goroutines (more than Ps) in
+// a tight loop on ONE kind of call with small values of their own (String() of header-only PDUs, their IEncode,
+// pooled UCS-2, message-id strings). Lock-free free lists and hand-written pools need exactly this to go wrong.
+// Every result is compared with the one the same value gives when nothing else runs (computed first).
+func c13Storm(c *fw.Case) {
+	ts := pdus.Load()
+	var small []*pdus.Type
+	for _, t := range ts.Types {
+		lf := t.Lib().Fields
+		if len(lf) <= 2 && (len(lf) == 0 || lf[len(lf)-1].Kind != "tlv") { // optional parameters are emitted in map order
+			small = append(small, t)
+		}
+	}
+	kind := []string{"String", "IEncode", "Utf8ToUcs2Pooled", "MsgID2String", "String"}[c.Idx%5]
+	G := []int{64, 48, 96, 64}[c.Idx/5%4]
+	iters := 600
+	if c.Tier == fw.Thorough {
+		iters = 4000
+	}
+	type job struct {
+		call func() string
+		want string
+	}
+	jobs := make([][]job, G)
+	for g := range jobs {
+		for k := 0; k < 4; k++ {
+			var call func() string
+			switch kind {
+			case "String", "IEncode":
+				t := small[c.R.Intn(len(small))]
+				v, _ := pdus.Gen(t.Lib(), c.R, -1, 0)
+				pd := pdus.Build(t.Lib(), v)
+				if kind == "String" {
+					call = func() string { return digestLines(pd.String()) }
+				} else {
+					call = func() string { b, err := pd.IEncode(); return fmt.Sprintf("%x %v", b, err) }
+				}
+			case "Utf8ToUcs2Pooled":
+				text, _ := randomText(c.R, 40)
+				call = func() string { return cmpp.Utf8ToUcs2Pooled(text) }
+			default:
+				id := c.R.U64() | 1
+				call = func() string { s := cmpp.MsgID2String(id); return fmt.Sprintf("%s %d", s, cmpp.MsgIDString2Uint64(s)) }
+			}
+			jobs[g] = append(jobs[g], job{call, call()})
+		}
+	}
+	bad := make([]string, G)
+	var wg sync.WaitGroup
+	start := make(chan struct{})
+	for g := 0; g < G; g++ {
+		wg.Add(1)
+		go func(g int) {
+			defer wg.Done()
+			<-start
+			if p, val, st := fw.Try(func() {
+				for i := 0; i < iters; i++ {
+					j := jobs[g][i%len(jobs[g])]
+					if got := j.call(); got != j.want {
+						bad[g] = fmt.Sprintf("call %d: %s, alone %s", i, trunc200(got), trunc200(j.want))
+						return
+					}
+				}
+			}); p {
+				bad[g] = fmt.Sprintf("panic: %v\n%s", val, st)
+			}
+		}(g)
+	}
+	close(start)
+	wg.Wait()
+	c.Evals(uint64(G * iters))
+	for g := range bad {
+		if bad[g] != "" {
+			sig := "differs-from-sequential/storm-" + kind
+			if strings.HasPrefix(bad[g], "panic") {
+				sig = "concurrent-panic/storm-" + kind
+			}
+			c.Failf(sig, "goroutine %d of %d in a tight loop of %s on its own values: %s", g, G, kind, bad[g])
+			break
+		}
+	}
+	if c.W.Hooks != nil {
+		if errs := c.W.Hooks.TakeOwnErrs(); len(errs) > 0 {
+			c.Failf("pool-ownership", "%v", errs)
+		}
+	}
+	c.Cover(fmt.Sprintf("%s/G%d/%s", c.Stage.Name, G, kind))
+}
+
 func init() {
 	gmp := func(shard int) int { return []int{1, 2, 4, 8, 16}[shard%5] }
 	fw.Register(&fw.Prop{
 		ID:        "C13",
 		Technique: "Go race detector over a multi-goroutine mixed workload (configuration A: no hook handler installed, so monitors add no synchronisation) + sequential-equivalence oracle + pool-ownership monitor and Yield-hook schedule perturbation (configuration B)",
-		Rule: "each case: G in {2,4,8,16,32,64} goroutines, each running its own PRNG op list (encode, decode, dispatcher+String, String, both splitters, Build, six text codecs, pooled UCS-2, TLV container, message id, receipts, images that end early (the error is compared too), and a pool of six texts that several goroutines split at the same time each with its own reference byte) on its own values; results compared with the same lists executed alone, and the last 32 results each goroutine holds re-read every 16 calls and at the end of its list; worker processes with GOMAXPROCS in {1,2,4,8,16}; " +
+		Rule: "each case: G in {2,4,8,16,32,64} goroutines, each running its own PRNG op list (encode, decode, dispatcher+String, String, both splitters, Build, six text codecs, pooled UCS-2, TLV container, message id, receipts, images that end early (the error is compared too), and a pool of six texts that several goroutines split at the same time each with its own reference byte) on its own values; results compared with the same lists executed alone, and the last 32 results each goroutine holds re-read every 16 calls and at the end of its list; worker processes with GOMAXPROCS in {1,2,4,8,16}; storm stages: 48..96 goroutines in a tight loop on one kind of call (String / IEncode of header-only PDUs, pooled UCS-2, message-id strings), every result compared with the value computed alone; " +
 			"distinct_nontrivial = distinct (stage, G, op kind) combinations executed + distinct interleaving fingerprints (hash of the (goroutine, site) order at Yield points) in configuration B; race reports are deduplicated by the pair of innermost library frames",
 		Assumptions: []string{
 			"a clean run is 'no race observed in these executions', not race freedom; the race detector only sees accesses the workload performs",
@@ -493,6 +582,8 @@ func init() {
 			{Name: "plain", N: q(240, 3000), Run: func(c *fw.Case) { c13Case(c, true) }},
 			{Name: "raceA", Race: true, NoHandler: true, N: q(120, 1500), GoMaxProcs: gmp, Run: func(c *fw.Case) { c13Case(c, false) }},
 			{Name: "raceB", Race: true, N: q(120, 1500), GoMaxProcs: gmp, Run: func(c *fw.Case) { c13Case(c, true) }},
+			{Name: "storm", N: q(160, 1600), Run: c13Storm},
+			{Name: "storm-race", Race: true, N: q(32, 480), Run: c13Storm},
 		},
 	})
 }
